@@ -19,7 +19,11 @@ import time
 
 ROOT = os.path.dirname(os.path.dirname(os.path.abspath(__file__)))
 REPO = "/repo"
-SV = "/tmp/sv"
+# scratch worktree used to confirm a change (suite + demonstration)
+SV = os.environ.get("VERIF_SCRATCH", "/tmp/sv")
+# the tree the checks build: /repo itself, or the scratch worktree when run from a copy (tools/mkcopy.sh)
+TARGET_REPO = os.environ.get("VERIF_TARGET_REPO", "/repo")
+OUT_ROOT = os.environ.get("VERIF_SEEDED_OUT", os.path.join(ROOT, "seeded"))
 ENV = dict(os.environ, CARGO_NET_OFFLINE="true")
 
 
@@ -85,7 +89,7 @@ def main():
     demo = os.path.join(wt, f"variant_{variant}_demo.rs")
     note = os.path.join(wt, f"variant_{variant}.md")
     sid = f"{prop}_{variant}"
-    out = os.path.join(ROOT, "seeded", sid)
+    out = os.path.join(OUT_ROOT, sid)
     meta = {"id": sid, "property": prop, "source": "independent sub-agent given only the property text", "confirmed": {}}
     ensure_sv()
     # -- 1. confirm in the scratch worktree
@@ -143,8 +147,8 @@ def main():
     print(sid, "confirmation:", json.dumps(meta["confirmed"])[:600], flush=True)
     # -- 2. the checks
     if valid:
-        assert sh(["git", "-C", REPO, "status", "--porcelain"]).stdout.strip() == "", "/repo dirty"
-        a = sh(["git", "-C", REPO, "apply", patch])
+        assert sh(["git", "-C", TARGET_REPO, "status", "--porcelain", "--untracked-files=no"]).stdout.strip() == "", "target tree dirty"
+        a = sh(["git", "-C", TARGET_REPO, "apply", patch])
         assert a.returncode == 0, a.stdout
         results = {}
         try:
@@ -169,7 +173,7 @@ def main():
                     results[p] = {"verdict": f"exit {r.returncode}", "tail": r.stdout[-800:]}
                 print("  ", p, results[p], flush=True)
         finally:
-            sh(["git", "-C", REPO, "checkout", "--", "."])
+            sh(["git", "-C", TARGET_REPO, "checkout", "--", "."])
         meta["checks"] = results
         meta["caught_by"] = sorted(p for p, v in results.items() if isinstance(v, dict) and v.get("verdict") == "caught")
         meta["caught_by_own_property_check"] = prop in meta["caught_by"]
